@@ -29,7 +29,9 @@ TNext == /\ l <= Len(Doc) /\ l' = l + 1 /\ tid' = tid
 TSpec == TInit /\ [][TNext]_tvars
 Done == l = Len(Doc) + 1
 Report == /\ (Done => PrintT(ToJson([cid |-> Batch[tid].cid, sounding |-> SetToSeq(MSounding), rests |-> SetToSeq(MRests), measures |-> mmeasures,
-                                      defs |-> mdefs, repeats |-> mrep, endings |-> mend, dens |-> SetToSeq(MDens), bad |-> SetToSeq(mbad), ties_ok |-> MTiesJoinEqualPitches])))
+                                      defs |-> mdefs, repeats |-> mrep, endings |-> mend, dens |-> SetToSeq(MDens),
+                                      bad |-> SetToSeq(mbad \cup (IF MCursorInMeasure THEN {} ELSE {"cursor_outside_its_measure"}) \cup (IF MMeasuresTile THEN {} ELSE {"measures_do_not_tile"})),
+                                      ties_ok |-> MTiesJoinEqualPitches])))
           /\ ((~Done /\ ~ENABLED TNext) => PrintT(<<"STUCK", Batch[tid].cid, l>>))
 InvCursor == MCursorInMeasure
 InvTile == MMeasuresTile
